@@ -8,8 +8,8 @@ HERE = os.path.dirname(os.path.abspath(__file__))
 
 # id -> (level category, level text, level note, technique, design ref)
 CLAIMS = {
- "C08": ("proof",
-   "Exhaustive static obligation per site: every unsafe.Pointer reinterpretation in the package (48 on the pinned tree, found on the SSA form by type, not by text) must be narrowing (sizeof view <= sizeof source) and a field-by-field layout prefix (offset, type, jsonld term, name; Items/OrderedItems is the one allowed renaming) on all 14 gc architectures; any other use of package unsafe fails. This is the property's own static formulation ('a static obligation per site'), so the check decides the property for all sites and layouts; it is reported as level 'other' in evidence while a known widening finding leaves an obligation undischarged.",
+ "C08": ("other",
+   "Exhaustive static obligation per site: every unsafe.Pointer reinterpretation in the package (48 on the pinned tree, found on the SSA form by type, not by text) must be narrowing (sizeof view <= sizeof source) and a field-by-field layout prefix (offset, type, jsonld term, name; Items/OrderedItems is the one allowed renaming) on all 14 gc architectures; any other use of package unsafe fails. This is the property's own static formulation ('a static obligation per site'), so the check decides the property for all sites and layouts. Claimed at level 'other' (not 'proof') because the two known widening findings at ToOrderedCollectionPage leave 2 of 88 obligations undischarged on the current tree.",
    "Trusted: go/types layout model types.SizesFor(gc, arch) agreeing with the compiler; go/ssa builder; the reflect.ConvertibleTo fallback converts only between identical underlying struct types (not re-verified).",
    "layout-prefix check over all unsafe.Pointer conversion sites (go/ssa + go/types.Sizes)", "3/C08"),
  "C15": ("other",
